@@ -74,8 +74,8 @@ def gen_case(run_seed, tier):
         length = sz.randint(6, 20)
     init = sz.choice(["zero", "plus", "one", "graph", "arrays"])
     api = sz.choice(["func", "func", "stab", "mixed"])
-    kinds = ["g1", "g2", "mz", "mcopy", "reset", "swap", "ins", "addq", "rem", "tensor", "ptrace"]
-    w = {"g1": 8, "g2": 6, "mz": 2, "mcopy": 1, "reset": 1.5, "swap": 1.5, "ins": 1.5, "addq": 0.7, "rem": 1.5, "tensor": 0.7, "ptrace": 0.7}
+    kinds = ["g1", "g2", "mz", "mcopy", "reset", "swap", "ins", "addq", "rem", "tensor", "ptrace", "circ"]
+    w = {"g1": 8, "g2": 6, "mz": 2, "mcopy": 1, "reset": 1.5, "swap": 1.5, "ins": 1.5, "addq": 0.7, "rem": 1.5, "tensor": 0.7, "ptrace": 0.7, "circ": 1.0}
     for k in kinds:
         if k not in ("g1", "g2") and sz.random() < 0.2:
             w[k] = 0
@@ -95,7 +95,13 @@ def gen_case(run_seed, tier):
         elif k == "reset":
             hist.append([wl.choice(["rz", "rz", "rx", "ry"]), a, wl.randrange(2), det, bit])
         elif k == "swap":
-            hist.append(["swap", a, b])
+            hist.append(["swap", a, b, wl.random() < 0.1])
+        elif k == "circ":
+            gl = []
+            for _ in range(wl.randint(1, 6)):
+                g = wl.choice(["H", "P", "P_dag", "X", "Y", "Z", "I", "CNOT", "CZ"])
+                gl.append([g, wl.randrange(10000), wl.randrange(10000)])
+            hist.append(["circ", gl, wl.random() < 0.5])
         elif k == "ins":
             hist.append(["ins", a])
         elif k == "addq":
@@ -438,6 +444,9 @@ def run_case(case):
                     continue
                 a = st[1] % n
                 b = [i for i in range(n) if i != a][st[2] % (n - 1)]
+                if len(st) > 3 and st[3]:
+                    b = a  # swapping a qubit with itself is legal and must be the identity
+                    ctx.probe("swap_same_qubit")
                 sut_t = sut.tab
                 sfc.swap_gate(sut_t, a, b)
                 ref.swap(a, b)
@@ -446,6 +455,41 @@ def run_case(case):
                     ctx.probe("swap_with_sign_set")
                 cands = [("", ref)]
                 ctx.log(step, "swap", a, b)
+            elif k == "circ":
+                # a gate list run through run_circuit / Stabilizer.apply_circuit, forwards or reversed (= inverse)
+                gl, rev = st[1], st[2]
+                lst = []
+                for g, x, y in gl:
+                    q = x % n
+                    if g in ("CNOT", "CZ"):
+                        if n < 2:
+                            continue
+                        t = [i for i in range(n) if i != q][y % (n - 1)]
+                        lst.append((g, q, t))
+                    else:
+                        lst.append((g, q))
+                if not lst:
+                    continue
+                if sut.api == "stab":
+                    sut.s.apply_circuit([tuple(x) for x in lst], reverse=rev)
+                else:
+                    out = tr.run_circuit(sut.tab, [tuple(x) for x in lst], reverse=rev)
+                    if sut.api == "func":
+                        sut.t = out
+                seq = list(reversed(lst)) if rev else lst
+                inv = {"P": "Pd", "P_dag": "P"} if rev else {"P": "P", "P_dag": "Pd"}
+                for item in seq:
+                    g = item[0]
+                    if g in ("CNOT", "CZ"):
+                        ref.gate(g, item[1], item[2])
+                        did["ent"] += 1
+                    elif g in ("P", "P_dag"):
+                        ref.gate(inv[g], item[1])
+                    elif g != "I":
+                        ref.gate(g, item[1])
+                ctx.probe("circuit_list_reversed" if rev else "circuit_list_forward")
+                cands = [("", ref)]
+                ctx.log(step, "circ", lst, rev)
             elif k in ("ins", "addq"):
                 if n >= NMAX:
                     continue
